@@ -881,6 +881,17 @@ impl ProtocolState {
             // truncated length prefix)
             validate_packet_outbound(&connect)?;
 
+            // MQTT 3.1.1 forbids a password without a user name [MQTT-3.1.2-22]; MQTT 5 allows it
+            if self.config.protocol_mode == ProtocolMode::Mqtt311 {
+                if let MqttPacket::Connect(connect_packet) = &*connect {
+                    if connect_packet.password.is_some() && connect_packet.username.is_none() {
+                        let message = "handle_network_event_connection_opened - MQTT 3.1.1 connect with a password but no username";
+                        error!("[{} ms] {}", self.elapsed_time_ms, message);
+                        return Err(GneissError::new_packet_validation(PacketType::Connect, message));
+                    }
+                }
+            }
+
             let connect_op_id = self.create_operation(connect, None);
 
             self.enqueue_operation(connect_op_id, ProtocolQueueType::HighPriority, ProtocolEnqueuePosition::Front);
